@@ -273,6 +273,9 @@ func c14Enumerate() []c14Case {
 			for _, r := range []string{"default", "nothing", "teapot", "option-default"} {
 				for _, car := range []string{"server", "mux"} {
 					cs = append(cs, c14Case{Mode: "forward", Code: code, Msg: "m", Cancelled: canc, Renderer: r, Carrier: car})
+					if !canc {
+						cs = append(cs, c14Case{Mode: "forward", Code: code, Msg: "", Cancelled: canc, Renderer: r, Carrier: car})
+					}
 					if code == 1 || code == 4 || code == 2 {
 						// the handler's own deadline (from GRPC-Timeout) has passed, the HTTP request is alive:
 						// the 499 rule is about the request, not about that deadline
@@ -302,7 +305,7 @@ func genC14(t *rapid.T) c14Case {
 	}
 	code := rapid.OneOf(rapid.Uint32Range(0, 20), rapid.Uint32(), rapid.SampledFrom(c14Codes)).Draw(t, "code")
 	return c14Case{Mode: "forward", Code: code,
-		Msg:       rapid.StringMatching(`[a-zA-Z0-9:%;,./ _-]{0,40}[a-zA-Z0-9]`).Draw(t, "msg"),
+		Msg:       rapid.OneOf(rapid.Just(""), rapid.Just(":"), rapid.StringMatching(`[a-zA-Z0-9:%;,./ _-]{0,40}[a-zA-Z0-9]`)).Draw(t, "msg"),
 		Cancelled: rapid.Bool().Draw(t, "cancelled"),
 		Renderer:  rapid.SampledFrom([]string{"default", "nothing", "teapot", "option-default"}).Draw(t, "renderer"),
 		Carrier:   rapid.SampledFrom([]string{"server", "mux"}).Draw(t, "carrier"),
